@@ -303,6 +303,28 @@ theorem normAttrs_id (c : PCfg) (h : hasDerivedAttrs c = false) : normAttrs c = 
     calc prods.map normProd = prods.map id := List.map_congr_left hp
       _ = prods := by simp
 
+/-! ### Non-vacuity of the comparer (build-time evaluation on real dumps)
+
+`%start S %allow_unmatched %% S: "a";` as dumped by the harness, against the dump of what the
+renderer produced before commit 44f84ce (`%allow_unmatched` dropped, finding F6): the comparer
+names the field. -/
+
+def dumpF6a : String := "53|-|-|ll|-|-|-|53:0:l.61.0.-.-.0.-|494e495449414c!-!-!1!1!1!-!-"
+def dumpF6b : String := "53|-|-|ll|-|-|-|53:0:l.61.0.-.-.0.-|494e495449414c!-!-!1!1!0!-!-"
+
+#guard handleCfgEq [dumpF6a, dumpF6a] == some "ok"
+#guard handleCfgEq [dumpF6a, dumpF6b] == some "fail scanner[0].allow_unmatched"
+#guard handleCfgEq [dumpF6a, "!reparse:syntax"] == some "fail !reparse:syntax"
+-- a clipped terminal vs an unclipped one; a lost user type; a lost lookahead
+#guard handleCfgEq ["53|-|-|ll|-|-|-|53:0:l.61.1.-.-.0.-|49!-!-!1!1!0!-!-", "53|-|-|ll|-|-|-|53:0:l.61.0.-.-.0.-|49!-!-!1!1!0!-!-"]
+  == some "fail production[0].rhs[0].clipping"
+#guard handleCfgEq ["53|-|-|ll|-|-|-|53:0:n.42.0.-.x54.-.-|49!-!-!1!1!0!-!-", "53|-|-|ll|-|-|-|53:0:n.42.0.-.-.-.-|49!-!-!1!1!0!-!-"]
+  == some "fail production[0].rhs[0].user-type"
+#guard handleCfgEq ["53|-|-|ll|-|-|-|53:0:l.61.0.-.-.0.pwx62|49!-!-!1!1!0!-!-", "53|-|-|ll|-|-|-|53:0:l.61.0.-.-.0.-|49!-!-!1!1!0!-!-"]
+  == some "fail production[0].rhs[0].lookahead"
+-- derived annotations (production attribute 2, symbol attribute 2) are excluded, clipping is not
+#guard handleCfgEq ["53|-|-|ll|-|-|-|53:2:n.42.2.-.-.-.-|49!-!-!1!1!0!-!-", "53|-|-|ll|-|-|-|53:0:n.42.0.-.-.-.-|49!-!-!1!1!0!-!-"] == some "ok"
+
 /-! ### Non-vacuity and the boundary of `litOk` -/
 
 -- bodies with escapes and with the other kinds' delimiters
